@@ -14,18 +14,25 @@ Core-only.
 namespace KoordVerif.C20
 
 structure WatchPred where
-  create : Ident → Bool            -- CreateFunc on the new object
-  update : Ident → Ident → Bool    -- UpdateFunc on (old, new)
+  create : Ident → Bool                -- ConfigMap watch: CreateFunc on the new object
+  update : Ident → Ident → Bool        -- ConfigMap watch: UpdateFunc on (old, new)
+  nodeUpdate : Labels → Labels → Bool  -- Node watch: UpdateFunc on (old labels, new labels)
 
 /-- no predicate on the watch (the pinned source). -/
-def WatchPred.none : WatchPred := { create := fun _ => true, update := fun _ _ => true }
+def WatchPred.none : WatchPred := { create := fun _ => true, update := fun _ _ => true, nodeUpdate := fun _ _ => true }
 
 /-- predicate.GenerationChangedPredicate{} on a ConfigMap: Create passes, every Update is dropped. -/
-def WatchPred.generationChanged : WatchPred := { create := fun _ => true, update := fun _ _ => false }
+def WatchPred.generationChanged : WatchPred :=
+  { create := fun _ => true, update := fun _ _ => false, nodeUpdate := fun _ _ => true }
 
-/-- a predicate that can only drop what the handler would drop anyway: Updates whose Data did not change. -/
+/-- a generation-comparing predicate on the NODE watch (a Node's generation does not change with its labels). -/
+def WatchPred.nodeGenerationChanged : WatchPred :=
+  { create := fun _ => true, update := fun _ _ => true, nodeUpdate := fun _ _ => false }
+
+/-- predicates that can only drop what the handlers would drop anyway: ConfigMap Updates whose Data did not change, Node
+    Updates whose labels did not change. -/
 def WatchPred.Sound (pr : WatchPred) : Prop :=
-  (∀ i, pr.create i = true) ∧ (∀ o n, o ≠ n → pr.update o n = true)
+  (∀ i, pr.create i = true) ∧ (∀ o n, o ≠ n → pr.update o n = true) ∧ (∀ o n, o ≠ n → pr.nodeUpdate o n = true)
 
 /-- the API change always happens; the event reaches `qevent` only through the watch's predicate. -/
 def wevent (pr : WatchPred) (d : Defaults) (parse : Ident → CM) (x : QWorld) : HStep → QWorld
@@ -36,6 +43,12 @@ def wevent (pr : WatchPred) (d : Defaults) (parse : Ident → CM) (x : QWorld) :
     | some old =>
       if pr.update old i then qevent d parse x (.cmUpdate i) else { x with w := { x.w with cm := some i } }
     | none => qevent d parse x (.cmUpdate i)
+  | .nodeUpdate n ls =>
+    match lookupA x.w.nodes n with
+    | some old =>
+      if pr.nodeUpdate old ls then qevent d parse x (.nodeUpdate n ls)
+      else { x with w := { x.w with nodes := setA x.w.nodes n ls } }
+    | none => qevent d parse x (.nodeUpdate n ls)
   | s => qevent d parse x s
 
 def wstep (pr : WatchPred) (d : Defaults) (parse : Ident → CM) (x : QWorld) : QStep → QWorld
